@@ -369,6 +369,23 @@ Theorem C13_merge_route_repeat_same :
 Proof. exact merge_route_repeat_same. Qed.
 Print Assumptions C13_merge_route_repeat_same.
 
+(* The PLACE named by an issue (index_in_tag, index_in_tag_end of INVALID_PARENT_NODE, "extension word is a schema tag"):
+   for a tag written with a namespace it is the place reported for the unprefixed tag moved by the length of the
+   namespace, for every table, text and namespace length; and it is the place of the first extension word that is a
+   tag of the schema.  (Places of the other issue kinds are compared on the implementation only.) *)
+Theorem C13_invalid_parent_span_shift : forall (T : table) (clean : str) (adj : nat),
+  invalid_parent_span T clean adj = option_map (shift_span adj) (invalid_parent_span T clean 0).
+Proof. exact invalid_parent_span_shift. Qed.
+Print Assumptions C13_invalid_parent_span_shift.
+
+Theorem C13_first_schema_word_points : forall (T : table) (names : list str) (pos a b : nat),
+  first_schema_word T names pos = Some (a, b) ->
+  exists i nm, nth_error names i = Some nm /\ km_get [nm] (t_keys T) <> None /\
+               (forall j x, j < i -> nth_error names j = Some x -> km_get [x] (t_keys T) = None) /\
+               a = pos + words_offset (firstn i names) /\ b = a + length nm.
+Proof. exact first_schema_word_points. Qed.
+Print Assumptions C13_first_schema_word_points.
+
 (* ====================================================================== PART 2: record of the repaired defects
    (fixed = false: the behaviour before fix commits 02171e0 (C13-F2), bb02e3e (C13-F3), 9d4df4f (C13-F4);
     fixed5 = false: the behaviour before fix commit 02f8597 (C13-F5).  None of this is true of /repo any more.) *)
